@@ -1348,7 +1348,7 @@ static inline void IR_MEMSET(void* d, int c, u64 n) { for (u64 i = 0; i < n; i++
    bound.  Reads from u64-typed static arrays do fold; the models therefore allocate from word-typed pools
    (three size classes).  Blocks are never reused: free() is a no-op here, so use-after-free is not detected
    by units built on this allocator (stated where it matters). */
-#ifdef __CPROVER__
+#if defined(__CPROVER__) && defined(IR_POOL)
 #ifndef IR_POOL_S
 #define IR_POOL_S 256
 #endif
@@ -1362,7 +1362,12 @@ IR_POOL_DECLS
 #define IR_FREE(p) ((void)(p))
 #else
 int ir_dynamic = 0;
+#ifdef __CPROVER__
+/* units with symbolic strings and few allocations (C12, C15): plain malloc with constant sizes */
+static u8* IR_ALLOC(u64 n) { u8* p; if (n <= 64) p = (u8*)malloc(64); else { IR_ASSERT(n <= 1400, "BOUND: allocation larger than the model capacity"); IR_ASSUME(n <= 1400); p = (u8*)malloc(1400); } IR_ASSUME(p != 0); return p; }
+#else
 static u8* IR_ALLOC(u64 n) { u8* p = (u8*)malloc(n ? n : 1); if (!p) abort(); return p; }
+#endif
 #define IR_FREE(p) free(p)
 #endif
 #define IR_SDIV(a,b) ((a)/(b))
